@@ -28,7 +28,7 @@ func init() {
 			}
 			return 14400
 		},
-		Rule:        "case = one concurrent run in a -race binary (GORACE halt_on_error=0, reports parsed afterwards, any report with a jrhy/mast frame is a violation) of 4-16 goroutines, each owning its own tree and private model, over shared persisted nodes; three workloads by case index: (1) FROZEN: a persisted tree is loaded once into a plain map of decoded nodes which per-goroutine cache views hand out with no lock or atomic at all, writes go to private overlays - the shared nodes are the only shared memory; (2) LIVE: one real NewNodeCache + in-memory store, goroutines in groups run identical op sequences so the same node names are produced, cached and looked up concurrently, persisting often; (3) CLONES: a parent tree with dirty and persisted parts is cloned N times, each clone handed to a worker while the parent keeps mutating; every goroutine runs a C01 history (insert/update/delete/get/iter/clone/persist/reload) checked against its model; non-trivial = >= 2 goroutines read the same shared node AND >= 200 mutations ran; distinct by (workload, config, seed)",
+		Rule:        "case = one concurrent run in a -race binary (GORACE halt_on_error=0, reports parsed afterwards, any report with a jrhy/mast frame is a violation) of 4-16 goroutines, each owning its own tree and private model, over shared persisted nodes; three workloads by case index: (1) FROZEN: a persisted tree is loaded once into a plain map of decoded nodes which per-goroutine cache views hand out with no lock or atomic at all, writes go to private overlays - the shared nodes are the only shared memory; (2) LIVE: one real NewNodeCache + in-memory store, goroutines in groups run identical op sequences so the same node names are produced, cached and looked up concurrently, persisting often; (3) CLONES: a parent tree with dirty and persisted parts is cloned N times, each clone handed to a worker while the parent keeps mutating; every goroutine runs a C01 history (insert/update/delete/get/iter/clone/persist/reload, plus diffs against its own earlier versions and short cursor walks) checked against its model; non-trivial = >= 2 goroutines read the same shared node AND >= 200 mutations ran; distinct by (workload, config, seed)",
 		Assumptions: []string{"the race detector only reports accesses that execute in the run and keeps a bounded history per memory word", "harness state is per-goroutine (forked contexts) or read-only after the go statements; results are merged after WaitGroup.Wait"},
 		MinObs:      map[string]int64{"goroutines_run": 400, "mutations": 20000, "shared_nodes_read_by_2plus": 500, "runs_frozen": 10, "runs_live": 10, "runs_clones": 10},
 		Run:         runC11,
@@ -181,7 +181,7 @@ func c11Frozen(c *fw.C) {
 				k.Violation("C11.behaves_as_alone", map[string]string{"workload": "frozen"}, "LoadMast of the shared root failed: %v", err)
 				return
 			}
-			d := &Driver{C: k, E: ge, T: t, M: md, R: gr, Pool: pool, ID: "C11", Judge: true, WPersist: 5, WReload: 3, WClone: 4}
+			d := &Driver{C: k, E: ge, T: t, M: md, R: gr, Pool: pool, ID: "C11", Judge: true, WPersist: 5, WReload: 3, WClone: 4, WDiff: 3, WCursor: 3}
 			d.hiTarget = len(pool)
 			for i := 0; i < nops && !d.Failed; i++ {
 				d.Step()
@@ -263,7 +263,7 @@ func c11Live(c *fw.C) {
 				if err != nil {
 					return
 				}
-				d := &Driver{C: k, E: ge, T: t, M: kinds.NewModel(cfg.KK), R: gr, Pool: pool, ID: "C11", Judge: true, WPersist: 14, WReload: 8, WClone: 3}
+				d := &Driver{C: k, E: ge, T: t, M: kinds.NewModel(cfg.KK), R: gr, Pool: pool, ID: "C11", Judge: true, WPersist: 14, WReload: 8, WClone: 3, WDiff: 3, WCursor: 3}
 				d.hiTarget = len(pool)
 				d.growing = true
 				for i := 0; i < nops && !d.Failed; i++ {
@@ -341,7 +341,7 @@ func c11Clones(c *fw.C) {
 			}()
 			j := <-ch
 			ge := *e
-			d := &Driver{C: k, E: &ge, T: j.t, M: j.md, R: gr, Pool: pool, ID: "C11", Judge: true, WPersist: 6, WReload: 3, WClone: 4}
+			d := &Driver{C: k, E: &ge, T: j.t, M: j.md, R: gr, Pool: pool, ID: "C11", Judge: true, WPersist: 6, WReload: 3, WClone: 4, WDiff: 3, WCursor: 3}
 			d.hiTarget = len(pool)
 			for i := 0; i < nops && !d.Failed; i++ {
 				d.Step()
@@ -356,7 +356,7 @@ func c11Clones(c *fw.C) {
 	// the parent clones (sequentially, as the API requires of one tree), hands over, and keeps mutating
 	pk := c.Fork()
 	kids = append(kids, pk)
-	pd := &Driver{C: pk, E: e, T: parent.T, M: parent.M, R: pk.R.Fork(), Pool: pool, ID: "C11", Judge: true, WPersist: 6, WReload: 0, WClone: 0}
+	pd := &Driver{C: pk, E: e, T: parent.T, M: parent.M, R: pk.R.Fork(), Pool: pool, ID: "C11", Judge: true, WPersist: 6, WReload: 0, WClone: 0, WDiff: 2, WCursor: 2}
 	pd.hiTarget = len(pool)
 	for i := 0; i < N; i++ {
 		cl, err := pd.T.Clone(e.Ctx)
